@@ -87,6 +87,30 @@ func init() {
 			Req: []string{"neq($maxAge, 0)", "true($claims.GetAuthTime().Before(time.Now().Add(-$maxAge)))"}},
 		{ID: "E1.acr.default", Fn: "oidc.DefaultACRVerifier$1", P: []string{"acr"}, Kind: "ret ok", Req: []string{"true(slices.Contains($values, $acr))"}},
 	}
+	// the claim getters the checks read through are plain reads of the decoded field (a getter that substitutes another claim
+	// changes what every check compares)
+	obs = append(obs, Ob{ID: "E8.claims.getter.GetIssuer", Fn: "oidc.(*TokenClaims).GetIssuer", P: []string{"c"}, Kind: "ret any", Pat: "ret($c.Issuer)", Why: "checks read the decoded claim itself"},
+		Ob{ID: "E8.claims.getter.GetIssuer.only", Fn: "oidc.(*TokenClaims).GetIssuer", P: []string{"c"}, Kind: "ret any", Nots: []string{"ret($c.Issuer)"}, Forbid: true, Why: "no other value is handed to the checks"})
+	obs = append(obs, Ob{ID: "E8.claims.getter.GetSubject", Fn: "oidc.(*TokenClaims).GetSubject", P: []string{"c"}, Kind: "ret any", Pat: "ret($c.Subject)", Why: "checks read the decoded claim itself"},
+		Ob{ID: "E8.claims.getter.GetSubject.only", Fn: "oidc.(*TokenClaims).GetSubject", P: []string{"c"}, Kind: "ret any", Nots: []string{"ret($c.Subject)"}, Forbid: true, Why: "no other value is handed to the checks"})
+	obs = append(obs, Ob{ID: "E8.claims.getter.GetAudience", Fn: "oidc.(*TokenClaims).GetAudience", P: []string{"c"}, Kind: "ret any", Pat: "ret($c.Audience)", Why: "checks read the decoded claim itself"},
+		Ob{ID: "E8.claims.getter.GetAudience.only", Fn: "oidc.(*TokenClaims).GetAudience", P: []string{"c"}, Kind: "ret any", Nots: []string{"ret($c.Audience)"}, Forbid: true, Why: "no other value is handed to the checks"})
+	obs = append(obs, Ob{ID: "E8.claims.getter.GetExpiration", Fn: "oidc.(*TokenClaims).GetExpiration", P: []string{"c"}, Kind: "ret any", Pat: "ret($c.Expiration.AsTime())", Why: "checks read the decoded claim itself"},
+		Ob{ID: "E8.claims.getter.GetExpiration.only", Fn: "oidc.(*TokenClaims).GetExpiration", P: []string{"c"}, Kind: "ret any", Nots: []string{"ret($c.Expiration.AsTime())"}, Forbid: true, Why: "no other value is handed to the checks"})
+	obs = append(obs, Ob{ID: "E8.claims.getter.GetIssuedAt", Fn: "oidc.(*TokenClaims).GetIssuedAt", P: []string{"c"}, Kind: "ret any", Pat: "ret($c.IssuedAt.AsTime())", Why: "checks read the decoded claim itself"},
+		Ob{ID: "E8.claims.getter.GetIssuedAt.only", Fn: "oidc.(*TokenClaims).GetIssuedAt", P: []string{"c"}, Kind: "ret any", Nots: []string{"ret($c.IssuedAt.AsTime())"}, Forbid: true, Why: "no other value is handed to the checks"})
+	obs = append(obs, Ob{ID: "E8.claims.getter.GetNonce", Fn: "oidc.(*TokenClaims).GetNonce", P: []string{"c"}, Kind: "ret any", Pat: "ret($c.Nonce)", Why: "checks read the decoded claim itself"},
+		Ob{ID: "E8.claims.getter.GetNonce.only", Fn: "oidc.(*TokenClaims).GetNonce", P: []string{"c"}, Kind: "ret any", Nots: []string{"ret($c.Nonce)"}, Forbid: true, Why: "no other value is handed to the checks"})
+	obs = append(obs, Ob{ID: "E8.claims.getter.GetAuthTime", Fn: "oidc.(*TokenClaims).GetAuthTime", P: []string{"c"}, Kind: "ret any", Pat: "ret($c.AuthTime.AsTime())", Why: "checks read the decoded claim itself"},
+		Ob{ID: "E8.claims.getter.GetAuthTime.only", Fn: "oidc.(*TokenClaims).GetAuthTime", P: []string{"c"}, Kind: "ret any", Nots: []string{"ret($c.AuthTime.AsTime())"}, Forbid: true, Why: "no other value is handed to the checks"})
+	obs = append(obs, Ob{ID: "E8.claims.getter.GetAuthorizedParty", Fn: "oidc.(*TokenClaims).GetAuthorizedParty", P: []string{"c"}, Kind: "ret any", Pat: "ret($c.AuthorizedParty)", Why: "checks read the decoded claim itself"},
+		Ob{ID: "E8.claims.getter.GetAuthorizedParty.only", Fn: "oidc.(*TokenClaims).GetAuthorizedParty", P: []string{"c"}, Kind: "ret any", Nots: []string{"ret($c.AuthorizedParty)"}, Forbid: true, Why: "no other value is handed to the checks"})
+	obs = append(obs, Ob{ID: "E8.claims.getter.GetSignatureAlgorithm", Fn: "oidc.(*TokenClaims).GetSignatureAlgorithm", P: []string{"c"}, Kind: "ret any", Pat: "ret($c.SignatureAlg)", Why: "checks read the decoded claim itself"},
+		Ob{ID: "E8.claims.getter.GetSignatureAlgorithm.only", Fn: "oidc.(*TokenClaims).GetSignatureAlgorithm", P: []string{"c"}, Kind: "ret any", Nots: []string{"ret($c.SignatureAlg)"}, Forbid: true, Why: "no other value is handed to the checks"})
+	obs = append(obs, Ob{ID: "E8.claims.getter.GetAuthenticationContextClassReference", Fn: "oidc.(*TokenClaims).GetAuthenticationContextClassReference", P: []string{"c"}, Kind: "ret any", Pat: "ret($c.AuthenticationContextClassReference)", Why: "checks read the decoded claim itself"},
+		Ob{ID: "E8.claims.getter.GetAuthenticationContextClassReference.only", Fn: "oidc.(*TokenClaims).GetAuthenticationContextClassReference", P: []string{"c"}, Kind: "ret any", Nots: []string{"ret($c.AuthenticationContextClassReference)"}, Forbid: true, Why: "no other value is handed to the checks"})
+	obs = append(obs, Ob{ID: "E8.claims.getter.GetAccessTokenHash", Fn: "oidc.(*IDTokenClaims).GetAccessTokenHash", P: []string{"t"}, Kind: "ret any", Pat: "ret($t.AccessTokenHash)"},
+		Ob{ID: "E8.claims.getter.GetAccessTokenHash.only", Fn: "oidc.(*IDTokenClaims).GetAccessTokenHash", P: []string{"t"}, Kind: "ret any", Nots: []string{"ret($t.AccessTokenHash)"}, Forbid: true})
 	register(&PropSpec{
 		ID: "C01",
 		Explanation: "Decides, for all paths: (1) rp.VerifyIDToken returns claims only after ParseToken and the ten Check* calls succeeded on the returned claims value, each bound to the verifier field the standard names (issuer, client id, offset, max ages, nonce, acr, key set, algorithms); (2) VerifyTokens/VerifyAccessToken bind at_hash to the left-half hash of the given access token with the ID token's own algorithm; (3) each Check* predicate's accept path and each of its reject paths carry exactly the OIDC Core 3.1.3.7 condition (accept-set and its dual), with time comparisons normalised (After->Before, Round/UTC dropped); (4) the algorithm->hash table. Does not decide: true time, signature arithmetic, value equality of returned claims beyond variable identity.",
